@@ -22,6 +22,9 @@ func A(s string) *Sx     { return &Sx{Atom: s} }
 func N(v uint64) *Sx     { return &Sx{Atom: strconv.FormatUint(v, 10)} }
 func X(b []byte) *Sx     { return &Sx{Atom: "x" + hex.EncodeToString(b)} }
 func L(items ...*Sx) *Sx { return &Sx{IsL: true, List: items} }
+
+// L_ is L (for scopes where L names a length)
+func L_(items ...*Sx) *Sx { return L(items...) }
 func Bl(b bool) *Sx {
 	if b {
 		return A("1")
